@@ -86,7 +86,21 @@ def rebuild_rule(repo: Repo, rep: Report, rid: str) -> None:
         g = CFG(fi.node)
         stores = [n for n in g.nodes if n.kind == "stmt" and any(store_pred(c) for c in ast.walk(n.ast) if isinstance(c, ast.Call))]
         reb = {n.id for n in g.nodes if n.kind == "stmt" and node_calls(n, "_rebuild")}
-        ok = bool(stores) and bool(reb) and all(g.must_pass(s.id, g.exit.id, reb) for s in stores)
+        # a name that is not a member of the union itself (a field folded in from an anonymous structure: its property setter already went through the
+        # nested proxy, which rebuilds the union under the top-level member's name) may skip the rebuild behind a membership test
+        member_tests = {n.id for n in g.nodes if n.kind == "if" and any(isinstance(c, ast.Compare) and any(isinstance(o, (ast.In, ast.NotIn)) for o in c.ops)
+                                                                       and "lookup" in norm(c.comparators[0]) for c in ast.walk(n.ast.test))}
+        ok = bool(stores) and bool(reb) and all(g.must_pass(s.id, g.exit.id, reb | member_tests) for s in stores)
+        if qn == "Union.__setattr__":
+            rb_calls = [c for n in g.nodes for c in node_calls(n, "_rebuild")]
+            rb_fn = repo.func("types/structure.py", "Union._rebuild")
+            tolerant = any(isinstance(c, ast.Call) and call_name(c) == "get" and "lookup" in norm(c.func.value) for c in walk_body(rb_fn.node.body)) or \
+                any(isinstance(t, ast.Try) for t in walk_body(rb_fn.node.body))
+            guarded = bool(member_tests) and all(g.must_pass(g.entry.id, n.id, member_tests) for n in g.nodes if n.kind == "stmt" and node_calls(n, "_rebuild"))
+            rep.check(bool(rb_calls) and (guarded or tolerant), rid, f"{fi.key}:member-name", "_rebuild only receives names of the union's own members",
+                      "Union.__setattr__ hands every attribute name to _rebuild, which indexes the union's own member table with it: assigning a field that was "
+                      "folded in from an anonymous structure (union u { struct { uint8 x; uint8 y; }; uint16 v; }; u.x = 5) applies the change through the "
+                      "nested proxy and then raises KeyError('x')", fi.loc())
         # ... and no normal path skips the store itself (an early return for "unchanged" values loses in-place edits and -0.0 / +0.0)
         no_skip = bool(stores) and g.must_pass(g.entry.id, g.exit.id, {s.id for s in stores})
         rep.check(no_skip, rid, f"{fi.key}:always-stores", "every normal path performs the store",
@@ -319,6 +333,38 @@ def union_call_rule(repo: Repo, rep: Report, rid: str) -> None:
               "rebuilt from its first member loses the bytes that member does not own (unused bits of a bit-field unit, alignment padding)", fi.loc())
 
 
+def proxy_liveness_rule(repo: Repo, rep: Report, rid: str) -> None:
+    rep.rule(rid, "a proxy handed out for a nested member stays a view of the union: either UnionProxy resolves its target through the union on every "
+                  "use, or a rebuild keeps the nested member objects (updating them in place) - a proxy that stores the object it wraps while every "
+                  "rebuild replaces that object goes stale after the first assignment made through it")
+    px = repo.cls("UnionProxy")
+    init = px.methods.get("__init__")
+    stores_target = init is not None and any(isinstance(c, ast.Call) and call_name(c) == "__setattr__" and len(c.args) >= 3 and isinstance(c.args[1], ast.Constant)
+                                             and c.args[1].value == "__target__" for c in walk_body(init.node.body))
+    upd = repo.func("types/structure.py", "Union._update")
+    replaces = any(isinstance(c, ast.Call) and norm(c.func).endswith("__dict__.update") for c in walk_body(upd.node.body))
+    rep.check(not (stores_target and replaces), rid, "types/structure.py:UnionProxy:liveness", "proxies cannot go stale",
+              "UnionProxy keeps the nested object it was created for (__target__) while Union._update replaces every member object on each rebuild: "
+              "p = u.s; p.lo = 9; p.hi = 8 applies the second assignment to an object the union no longer holds, and the rebuild it triggers "
+              "re-serialises the union's current member - the second write is lost", f"{px.module.path}:{px.node.lineno}")
+
+
+def union_write_fold_rule(repo: Repo, rep: Report, rid: str) -> None:
+    rep.rule(rid, "UnionMetaType._write folded over 7 member lists: what is dumped is a full image of the union - one member as large as the union is encoded "
+                  "(an anonymous structure when no regular member is as large), followed by zero padding up to len(union)")
+    from ..folds import fold_union_write
+
+    fi = repo.func("types/structure.py", "UnionMetaType._write")
+    fold = fold_union_write(repo)
+    if fold is None:
+        rep.ok(rid, f"{fi.key}:fold", "not foldable with the evaluator's whitelist", fi.loc(), nontrivial=False)
+        return
+    bad = fold["bad"]
+    rep.check(not bad, rid, f"{fi.key}:fold", f"{fold['cases']} member lists dump a full image",
+              f"union with members '{bad[0][0] if bad else ''}': {bad[0][1] if bad else ''}, expected {bad[0][2] if bad else ''}: the bytes that only the larger member "
+              "covers are dumped as zeros", fi.loc())
+
+
 def run(repo: Repo, rep: Report, tier: str) -> None:
     member_seek_rule(repo, rep, "C11.R1")
     rebuild_rule(repo, rep, "C11.R2")
@@ -342,6 +388,10 @@ def run(repo: Repo, rep: Report, tier: str) -> None:
     layout_fold_rule(repo, rep, "C11.R9", 3 if tier == "thorough" else 2, part="union")
     union_encode_rule(repo, rep, "C11.R10")
     union_call_rule(repo, rep, "C11.R11")
+    union_write_fold_rule(repo, rep, "C11.R12")
+    proxy_liveness_rule(repo, rep, "C11.R13")
+
+
 
 
 
